@@ -139,7 +139,7 @@ def run_job(job, workdir):
             res["reason"] = "INSTRUMENT failed (rc=%d): %s" % (rc, (out + err)[-2000:])
             return res
         final = inst
-    cmd = ["cbmc", final, "--json-ui", "--trace", "--verbosity", "6"]
+    cmd = ["cbmc", final, "--json-ui", "--trace", "--verbosity", "8"]
     if job.safety:
         cmd += SAFETY_FLAGS
     if job.unwind is not None:
@@ -225,7 +225,7 @@ def _cex(trace, entry):
             continue
         fn = (st.get("sourceLocation") or {}).get("function", "")
         lhs = st.get("lhs", "")
-        if fn != entry or not lhs or lhs.startswith("__CPROVER") or "$" in lhs or "return_value" in lhs:
+        if fn != entry or not lhs or lhs.startswith("__") or "$" in lhs or "return_value" in lhs:
             continue
         if lhs.endswith("_wrapper"):
             continue
